@@ -238,3 +238,59 @@ func firstLine(s string) string {
 	}
 	return ""
 }
+
+// CrossCheck re-runs every discharged obligation on the solvers that did not decide it (thorough
+// tier): a second "unsat" is recorded, a "sat" is a disagreement between solvers and is reported.
+func CrossCheck(jobs []job, budgetMs int, workers int) (confirmed int, disagreements []string) {
+	var mu sync.Mutex
+	var wg sync.WaitGroup
+	ch := make(chan job)
+	for i := 0; i < workers; i++ {
+		wg.Add(1)
+		go func() {
+			defer wg.Done()
+			for j := range ch {
+				o := j.o
+				if o.Result != "unsat" || o.Expect == "sat" || o.Query == "" || o.Solver == "trivial" || o.Solver == "ground" {
+					continue
+				}
+				second := false
+				for _, s := range solvers {
+					if s.name == o.Solver {
+						continue
+					}
+					if r, done := o.Results[s.name]; done && (r == "unsat" || r == "sat") {
+						if r == "unsat" {
+							second = true
+						}
+						continue
+					}
+					r := runSolver(context.Background(), s, o.Query, budgetMs)
+					mu.Lock()
+					o.Results[s.name] = r.result
+					mu.Unlock()
+					if r.result == "unsat" {
+						second = true
+						break
+					}
+					if r.result == "sat" {
+						mu.Lock()
+						disagreements = append(disagreements, fmt.Sprintf("%s: %s says unsat, %s says sat", o.Name, o.Solver, s.name))
+						mu.Unlock()
+					}
+				}
+				if second {
+					mu.Lock()
+					confirmed++
+					mu.Unlock()
+				}
+			}
+		}()
+	}
+	for _, j := range jobs {
+		ch <- j
+	}
+	close(ch)
+	wg.Wait()
+	return
+}
